@@ -1,7 +1,7 @@
 (* Dispatch.v -- one entry point per property for the OCaml driver. *)
 From Coq Require Import ZArith List.
 From CiwV Require Import Sx Sched.
-From CiwV Require Acc.C01 Acc.C02 Acc.C04 Acc.C05 Acc.C06 Acc.C07 Acc.C08 Acc.C12.
+From CiwV Require Acc.C01 Acc.C02 Acc.C04 Acc.C05 Acc.C06 Acc.C07 Acc.C08 Acc.C12 Acc.C18.
 Import ListNotations.
 Open Scope Z_scope.
 
@@ -15,6 +15,7 @@ Definition dispatch (name : Z) (s : sx) : verdict :=
   | 7 => C07.run s
   | 8 => C08.run s
   | 12 => C12.run s
+  | 18 => C18.run s
   | _ => BadInput (-1)
   end.
 
